@@ -3,7 +3,11 @@ package main
 // Seeded, type-directed generator of operation sequences over a pool of nested composite variables.
 // Every candidate statement is checked with the Lean specification model (through the driver) so that
 // the sequence stays free of run-time panics (a small share of panicking last statements is kept).
-// Construct classes on which the unchanged interpreter is known to diverge are switchable (`allow`).
+// No construct is excluded any more: the shapes on which the interpreter diverged until the repairs of
+// 2026-09-26 (literals declared in loop bodies, comma-ok declarations in loop bodies, redeclared variables in
+// multi-defines, append operands aliasing the destination, nil dereference feeding a map store, range over a
+// pointer to an array, `&p[i]`, `&[n]T{…}` per iteration) are part of the default stream, and a share of the
+// programs starts with one of them on purpose (shapes.go).
 
 import (
 	"fmt"
@@ -30,17 +34,17 @@ func init() {
 }
 
 type gen struct {
-	rng   *rand.Rand
-	drv   *wdDriver
-	allow map[string]bool
-	e     env   // variables in scope
-	pool  []int // top-level variables, in declaration order
-	next  int
-	prog  Prog
-	asks  int
-	constIdx bool // index operands must be constants (inside generated functions)
-	inBody   bool // generating a statement of a loop body
-	ill   []string // protocol lines on which the model reported an ill-typed operation (generator bugs)
+	rng      *rand.Rand
+	drv      *wdDriver
+	e        env   // variables in scope
+	pool     []int // top-level variables, in declaration order
+	next     int
+	prog     Prog
+	asks     int
+	constIdx bool     // index operands must be constants (inside generated functions)
+	inBody   bool     // generating a statement of a loop body
+	bodyVars []int    // variables declared by the statements of the loop body being generated (same scope: may be redeclared)
+	ill      []string // protocol lines on which the model reported an ill-typed operation (generator bugs)
 }
 
 func (g *gen) fresh() int {
@@ -48,7 +52,7 @@ func (g *gen) fresh() int {
 	return g.next
 }
 
-func (g *gen) pick(n int) int { return g.rng.Intn(n) }
+func (g *gen) pick(n int) int        { return g.rng.Intn(n) }
 func (g *gen) chance(p float64) bool { return g.rng.Float64() < p }
 
 // ---- locations ----
@@ -165,16 +169,9 @@ func (g *gen) loc(want *Type) *loc {
 
 func isVar(l *LExp) bool { return l.K == "v" }
 
-// addressable by the interpreter: `&p[i]` with p a pointer to an array is rejected at compile time (listed
-// finding with a source replay), so the generator writes `&(*p)[i]`.
-func (g *gen) adrOK(l *LExp) bool {
-	if l.K == "x" {
-		if t := lexpType(g.e, l.L); t.K == "ptr" {
-			return false
-		}
-	}
-	return true
-}
+// `&p[i]` with p a pointer to an array was rejected at compile time until commit 0780d8c of the repository
+// (F04-9): both `&p[i]` and `&(*p)[i]` are generated now.
+func (g *gen) adrOK(l *LExp) bool { return true }
 
 // ---- values ----
 
@@ -228,7 +225,7 @@ func (g *gen) rexp(t *Type, ctx string) *RExp {
 	case "map":
 		return &RExp{K: "mkm", T: t.Src}
 	case "ptr":
-		if t.Elem.K == "int" || t.Elem.K == "ptr" || t.Elem.K == "slice" || t.Elem.K == "map" || (t.Elem.K == "array" && g.inBody) {
+		if t.Elem.K == "int" || t.Elem.K == "ptr" || t.Elem.K == "slice" || t.Elem.K == "map" {
 			return nil // no composite literal to take the address of
 		}
 		return &RExp{K: "new", T: t.Src, V: ptrVal(g.litVal(t.Elem))}
@@ -239,21 +236,9 @@ func (g *gen) rexp(t *Type, ctx string) *RExp {
 
 func ptrVal(v Val) *Val { return &v }
 
-func (g *gen) litAllowed(t *Type, ctx string) bool {
-	composite := t.K == "array" || t.K == "struct" || t.K == "slice" || t.K == "map"
-	if !composite {
-		return true
-	}
-	switch ctx {
-	case "single-var":
-		return true // struct literals to plain variables: in the domain since commit 3590fb8 of the repository (was F04-2)
-	case "multi-var", "multidef":
-		return true // calls and literals in multiple assignments: in the domain since commit 647e2cf of the repository (was finding F04-1)
-	case "define-body":
-		return t.K == "struct" || g.allow["define-lit-in-loop"]
-	}
-	return true
-}
+// litAllowed: composite literals are allowed everywhere — to plain variables since commit 3590fb8 of the repository
+// (was F04-2), in multiple assignments since 647e2cf (was F04-1), declared in loop bodies since 1436613 (was F04-4).
+func (g *gen) litAllowed(t *Type, ctx string) bool { return true }
 
 func (g *gen) callAllowed(ctx string) bool {
 	return true
@@ -286,9 +271,8 @@ func (g *gen) rexp1(t *Type, ctx string) *RExp {
 			}
 			return r
 		case "ptr":
-			// `&[n]T{…}` evaluated again in a later iteration yields the same pointer (listed finding F04-11, source
-			// replay; the model has no notion of the literal's own slot), so loop bodies only take `&T{…}` of structs
-			if g.chance(0.5) && (t.Elem.K == "struct" || (t.Elem.K == "array" && !g.inBody)) {
+			// `&[n]T{…}` evaluated again in a later iteration yielded the same pointer until commit 1436613 (F04-11)
+			if g.chance(0.5) && (t.Elem.K == "struct" || t.Elem.K == "array") {
 				return &RExp{K: "new", T: t.Src, V: ptrVal(g.litVal(t.Elem))}
 			}
 			if c := g.loc(t.Elem); c != nil && g.adrOK(c.l) {
@@ -480,16 +464,13 @@ func (g *gen) sop(inBody bool) *SOp {
 			if a == nil {
 				continue
 			}
-			if i > 0 && a.K == "ld" && !isVar(a.L) && !g.allow["append-alias-args"] {
-				v := g.litVal(d.t.Elem)
-				a = &RExp{K: "lit", T: d.t.Elem.Src, V: &v}
-				if d.t.Elem.hasPointers() {
-					a = nil
+			// operands that are elements of the destination's backing array, at any position (F04-6, repaired by b312e89)
+			if g.chance(0.3) {
+				if el := g.elemOf(o.S, d.t); el != nil {
+					a = el
 				}
 			}
-			if a != nil {
-				o.Args = append(o.Args, *a)
-			}
+			o.Args = append(o.Args, *a)
 		}
 		return o
 	case k < 75: // copy
@@ -539,27 +520,29 @@ func (g *gen) sop(inBody bool) *SOp {
 		}
 		m := ok[g.pick(len(ok))]
 		o := &SOp{K: "lk2", M: m.l, Ke: &IExp{N: 1 + g.pick(4)}, T: m.t.Elem.Src}
-		if inBody || g.chance(0.5) {
-			if inBody && g.chance(0.6) {
-				// a comma-ok declaration in a loop body: no new variable per iteration (listed class)
-				if len(g.e) > 9 || !g.allow["lookup2-define-in-loop"] {
-					return nil
-				}
-				o.IsDef, o.X, o.Ok = true, g.fresh(), g.fresh()
-				return o
-			}
+		if g.chance(0.4) {
 			// assignment form: needs existing variables of the right types
 			x, okv := g.loc(m.t.Elem), g.loc(ty("bool"))
-			if x == nil || okv == nil || !isVar(x.l) || !isVar(okv.l) {
-				return nil
+			if x != nil && okv != nil && isVar(x.l) && isVar(okv.l) && x.l.X != okv.l.X {
+				o.X, o.Ok = x.l.X, okv.l.X
+				return o
 			}
-			o.X, o.Ok = x.l.X, okv.l.X
-			return o
 		}
-		if inBody {
+		// declaration form, also in loop bodies (a new variable per iteration since commit 5a404d3: F04-12)
+		if inBody && len(g.e) > 10 {
 			return nil
 		}
 		o.IsDef, o.X, o.Ok = true, g.fresh(), g.fresh()
+		// one of the two may be a variable of the SAME scope that is only redeclared (it is assigned, not created)
+		if g.chance(0.3) {
+			if g.chance(0.6) {
+				if x := g.sameScopeVar(inBody, m.t.Elem); x >= 0 {
+					o.X, o.Rdx = x, true
+				}
+			} else if x := g.sameScopeVar(inBody, ty("bool")); x >= 0 {
+				o.Ok, o.Rdok = x, true
+			}
+		}
 		return o
 	default: // pass to a function that mutates its parameter, and take the result
 		// (constant index operands on the left: the callee may store through a pointer into an index variable,
@@ -661,6 +644,52 @@ func (g *gen) multi() *SOp {
 	return o
 }
 
+// sameScope lists the variables declared in the scope a new statement would belong to: the pool at top level, the
+// variables declared by earlier statements of the body inside a loop (the range variables belong to an outer scope).
+func (g *gen) sameScope(inBody bool) []int {
+	if inBody {
+		return g.bodyVars
+	}
+	return g.pool
+}
+
+func (g *gen) sameScopeVar(inBody bool, t *Type) int {
+	var ok []int
+	for _, x := range g.sameScope(inBody) {
+		if g.e[x] == t {
+			ok = append(ok, x)
+		}
+	}
+	if len(ok) == 0 {
+		return -1
+	}
+	return ok[g.pick(len(ok))]
+}
+
+// elemOf: a load of an element of the slice expression s (of type t) when s is a variable or a slicing of one.
+func (g *gen) elemOf(s *RExp, t *Type) *RExp {
+	var base *LExp
+	switch s.K {
+	case "ld", "sl":
+		base = s.L
+	}
+	if base == nil {
+		return nil
+	}
+	bt := lexpType(g.e, base)
+	if bt.K == "ptr" {
+		bt = bt.Elem
+	}
+	if (bt.K != "slice" && bt.K != "array") || bt.Elem != t.Elem {
+		return nil
+	}
+	n := 3
+	if bt.K == "array" {
+		n = bt.N
+	}
+	return &RExp{K: "ld", T: t.Elem.Src, L: &LExp{K: "x", L: base, E: &IExp{N: g.pick(n)}}}
+}
+
 func (g *gen) multidef(inBody bool) *SOp {
 	if inBody && len(g.e) > 8 {
 		return nil
@@ -668,12 +697,14 @@ func (g *gen) multidef(inBody bool) *SOp {
 	o := &SOp{K: "muld"}
 	n := 2 + g.pick(2)
 	redecl := -1
-	if !inBody && g.allow["multidefine-redeclared"] && len(g.pool) > 0 {
+	// a variable of the same scope that is only redeclared: assigned in place since commit 8bd8040 (F04-5)
+	scope := g.sameScope(inBody)
+	if len(scope) > 0 && g.chance(0.45) {
 		redecl = g.pick(n - 1)
 	}
 	for i := 0; i < n; i++ {
 		if i == redecl {
-			x := g.pool[g.pick(len(g.pool))]
+			x := scope[g.pick(len(scope))]
 			dup := false
 			for _, y := range o.Xs {
 				dup = dup || y == x
@@ -734,12 +765,7 @@ func (g *gen) status(p *Prog) string {
 	if i := strings.IndexByte(ys, '~'); i >= 0 {
 		ys = ys[:i]
 	}
-	if gs == "ok" && ys != "ok" {
-		// the model of the interpreter faults where the specification does not (after a listed divergence a
-		// pointer may be nil in the interpreter's world): the interpreter itself detects such faults only when
-		// the value is used (finding F04-10), so these candidates are not kept
-		return "model-faults"
-	}
+	_ = ys
 	if strings.HasPrefix(gs, "ill:") || gs == "" {
 		if len(g.ill) < 5 {
 			g.ill = append(g.ill, gs+" "+ans+" <= "+line)
@@ -763,7 +789,7 @@ func (g *gen) bind(o *SOp, top bool) {
 func (g *gen) try(op Op, panicOK bool) (kept, panicked bool) {
 	cand := Prog{Ops: append(append([]Op{}, g.prog.Ops...), op)}
 	st := g.status(&cand)
-	if st == "ok" || (panicOK && st != "ill" && st != "driver-error" && st != "too-big" && st != "model-faults") {
+	if st == "ok" || (panicOK && st != "ill" && st != "driver-error" && st != "too-big") {
 		g.prog = cand
 		return true, st != "ok"
 	}
@@ -773,7 +799,8 @@ func (g *gen) try(op Op, panicOK bool) (kept, panicked bool) {
 func (g *gen) rangeOp() *Op {
 	var ok []loc
 	for _, c := range g.locs(nil) {
-		if c.t.K == "array" || c.t.K == "slice" {
+		// arrays, slices and pointers to arrays (the pointer variable was clobbered until commit da35a0b: F04-7)
+		if c.t.K == "array" || c.t.K == "slice" || (c.t.K == "ptr" && c.t.Elem.K == "array") {
 			ok = append(ok, c)
 		}
 	}
@@ -781,10 +808,15 @@ func (g *gen) rangeOp() *Op {
 		return nil
 	}
 	src := ok[g.pick(len(ok))]
-	op := Op{K: "rng", Src: src.l, I: g.fresh(), V: g.fresh(), ET: src.t.Elem.Src}
+	rt := src.t
+	if rt.K == "ptr" {
+		rt = rt.Elem
+	}
+	op := Op{K: "rng", Src: src.l, I: g.fresh(), V: g.fresh(), ET: rt.Elem.Src, SK: src.t.K}
 	saved := g.e.clone()
-	g.e[op.I], g.e[op.V] = ty("int"), src.t.Elem
-	defer func() { g.e = saved }()
+	g.e[op.I], g.e[op.V] = ty("int"), rt.Elem
+	g.bodyVars = nil
+	defer func() { g.e = saved; g.bodyVars = nil }()
 	want := 1 + g.pick(3)
 	for tries := 0; len(op.Body) < want && tries < 12; tries++ {
 		var s *SOp
@@ -814,6 +846,8 @@ func (g *gen) rangeOp() *Op {
 		if g.status(&p) == "ok" {
 			op = cand
 			g.bind(s, false)
+			xs, _ := s.binds()
+			g.bodyVars = append(g.bodyVars, xs...)
 		}
 	}
 	if len(op.Body) == 0 {
@@ -845,8 +879,11 @@ func (g *gen) captureOp() *Op {
 }
 
 // generate builds one program.
-func generate(rng *rand.Rand, drv *wdDriver, allow map[string]bool) (Prog, *gen) {
-	g := &gen{rng: rng, drv: drv, allow: allow, e: env{}}
+func generate(rng *rand.Rand, drv *wdDriver, shape int) (Prog, *gen) {
+	g := &gen{rng: rng, drv: drv, e: env{}}
+	if shape >= 0 && g.seedShape(shape) {
+		return g.prog, g
+	}
 	// a pool of diverse variables first
 	for len(g.pool) < 3+g.pick(3) {
 		t := ty(poolTypes[g.pick(len(poolTypes))])
@@ -880,9 +917,9 @@ func generate(rng *rand.Rand, drv *wdDriver, allow map[string]bool) (Prog, *gen)
 					continue
 				}
 			}
-			// no deliberate panic in map stores and multi-assignments: the interpreter does not fault when a nil
-			// pointer is read but the value never stored (finding F04-10, source replay)
-			kept, panicked := g.try(Op{S: o}, last && o.K != "ms" && o.K != "mul" && o.K != "muld" && g.chance(0.3))
+			// deliberate panics also in map stores and multi-assignments (a nil pointer read but never stored went
+			// unnoticed until commit 93fb945: F04-10)
+			kept, panicked := g.try(Op{S: o}, last && g.chance(0.3))
 			if kept && !panicked {
 				g.bind(o, true)
 			}
